@@ -133,21 +133,31 @@ class Check(common.Check):
                 els.append(self.gen_msg(G))
         return [L] + els
 
+    def gen_bind(self, G):
+        """`with server.bind():` at server.latency None / 0 / 0.0 / small / usual"""
+        L = G.choice([None, 0, 0, {'f': '0'}, {'f': '0'}, {'f': '1/1024'}, {'f': '1/4'}, {'f': '1/8'}, 1])
+        msgs = [self.gen_msg(G, 1) for _ in range(G.choice([1, 1, 2, 3]))]
+        return ['bind', L, msgs, G.choice([-1, -1, 0, len(msgs) - 1])]
+
     def gen_one(self, G):
         c = {'tempo': fr(G.choice([Fr(1, 2), Fr(1), Fr(2), Fr(4)])),
              'late': fr(G.choice([Fr(0), Fr(1, 1024), Fr(1, 64), Fr(1, 4), Fr(2)])),
              'tail': fr(G.choice([Fr(0), Fr(1, 8), Fr(1, 2), Fr(3)])),
              'main': [], 'routines': []}
         for _ in range(G.choice([0, 0, 1, 2, 3])):
-            c['main'].append(['b', self.gen_bundle(G)] if G.random() < 0.7 else ['m', self.gen_msg(G)])
+            r = G.random()
+            c['main'].append(['b', self.gen_bundle(G)] if r < 0.6 else self.gen_bind(G) if r < 0.75
+                             else ['m', self.gen_msg(G)])
         for _ in range(G.choice([1, 1, 2, 3, 4])):
             steps = []
             for _ in range(G.choice([1, 2, 3, 5, 8])):
                 r = G.random()
                 if r < 0.35:
                     steps.append(['w', fr(G.choice([Fr(0), Fr(1, 8), Fr(1, 8), Fr(1, 4), Fr(1, 2), Fr(1), Fr(3, 8)]))])
-                elif r < 0.80:
+                elif r < 0.70:
                     steps.append(['b', self.gen_bundle(G)])
+                elif r < 0.80:
+                    steps.append(self.gen_bind(G))
                 elif r < 0.90:
                     # the same bundle object sent, a wait, sent again
                     b = self.gen_bundle(G, deep=True)
@@ -185,6 +195,9 @@ class Check(common.Check):
         """(kind, value) of the send with index k of routine `who` ('B' with None = previous 'B')"""
         steps = case['main'] if who == 'main' else case['routines'][who]['steps']
         kind, val = steps[k][0], steps[k][1]
+        if kind == 'bind':
+            # the proxy sends ONE bundle [server.latency, msg, ...] when the `with` block ends
+            return 'b', [steps[k][1]] + list(steps[k][2])
         if kind == 'B':
             if val is None:
                 j = k - 1
